@@ -1262,6 +1262,40 @@ impl<'a> Visitor<'a, '_, Error> for JSONValidator<'a> {
       return self.validate_array_items(&ArrayItemToken::Range(lower, upper, is_inclusive));
     }
 
+    // A bound may be the name of a rule that is a single numeric literal
+    // (e.g. `min..max`); resolve it like the CBOR validator does
+    let lower = resolve_range_bound(self.state.cddl, lower);
+    let upper = resolve_range_bound(self.state.cddl, upper);
+
+    // Integer bounds of different signedness (e.g. `-1..1` parses as an int and
+    // a uint literal) form an ordinary integer range
+    if let (Some(l), Some(u)) = (int_range_bound(lower), int_range_bound(upper)) {
+      if !matches!(
+        (lower, upper),
+        (Type2::IntValue { .. }, Type2::IntValue { .. })
+          | (Type2::UintValue { .. }, Type2::UintValue { .. })
+      ) {
+        let value = match &self.json {
+          Value::Number(n) => n
+            .as_i64()
+            .map(i128::from)
+            .or_else(|| n.as_u64().map(i128::from)),
+          _ => None,
+        };
+        let in_range = value.is_some_and(|i| l <= i && if is_inclusive { i <= u } else { i < u });
+        if !in_range {
+          self.add_error(format!(
+            "expected integer to be in range {} <= value {} {}, got {}",
+            l,
+            if is_inclusive { "<=" } else { "<" },
+            u,
+            self.json
+          ));
+        }
+        return Ok(());
+      }
+    }
+
     match (lower, upper) {
       (Type2::IntValue { value: l, .. }, Type2::IntValue { value: u, .. }) => {
         let error_str = if is_inclusive {
@@ -3465,6 +3499,37 @@ impl<'a> Visitor<'a, '_, Error> for JSONValidator<'a> {
     self.state.occurrence = Some(o.occur);
 
     Ok(())
+  }
+}
+
+/// Resolve a range bound given as the name of a rule that is a single numeric
+/// literal to that literal; any other bound is returned unchanged
+fn resolve_range_bound<'b, 'a: 'b>(cddl: &'b CDDL<'a>, bound: &'b Type2<'a>) -> &'b Type2<'a> {
+  if let Type2::Typename { ident, .. } = bound {
+    for r in cddl.rules.iter() {
+      if let Rule::Type { rule, .. } = r {
+        if rule.name.ident == ident.ident && rule.value.type_choices.len() == 1 {
+          let tc = &rule.value.type_choices[0];
+          if tc.type1.operator.is_none() {
+            if let Type2::UintValue { .. } | Type2::IntValue { .. } | Type2::FloatValue { .. } =
+              &tc.type1.type2
+            {
+              return &tc.type1.type2;
+            }
+          }
+        }
+      }
+    }
+  }
+  bound
+}
+
+/// The value of an integer range bound
+fn int_range_bound(bound: &Type2) -> Option<i128> {
+  match bound {
+    Type2::UintValue { value, .. } => Some(*value as i128),
+    Type2::IntValue { value, .. } => Some(*value as i128),
+    _ => None,
   }
 }
 
